@@ -148,14 +148,27 @@ def e2e(w, res, r, scratch):
     def probe(tag):
         """after each hostile input the listener must still serve a plain request"""
         try:
-            c = w.open("other", root, timeout=5)
+            c = w.open("other", root, timeout=60)
             c.send(rawhttp.build_request("GET", "/probe", [("x-vf-id", "probe-" + tag)]))
             ok = c.read_response().status == 200
             c.close()
             return ok
-        except Exception:
+        except Exception as e:  # noqa
+            if common.is_timeout(e):
+                if not res.get("inconclusive"):
+                    res.setdefault("inconclusive", []).append("client socket watchdog (60 s) fired on a probe; not a verdict")
+                return True
             return False
     before = len(w.shim.panics())
+
+    def talk(c, raw, method=None):
+        """True = an HTTP response arrived; False = the connection ended without one; "timeout" = our own 60 s watchdog fired"""
+        try:
+            c.send(raw)
+            c.read_response(method) if method else c.read_response()
+            return True
+        except Exception as e:  # noqa
+            return "timeout" if common.is_timeout(e) else False
 
     def after(sig_prefix, cls, wit, got_response):
         nonlocal before
@@ -166,32 +179,27 @@ def e2e(w, res, r, scratch):
         for p in new:
             loc = (p.get("location") or "?").split("/src/")[-1]
             res["violations"].append(["panic-at:%s:%s" % (sig_prefix, loc), dict(wit, panic=p, client_got_response=got_response)])
-        if not got_response and not new:
+        if got_response == "timeout":
+            if not res.get("inconclusive"):
+                res.setdefault("inconclusive", []).append("client socket watchdog (60 s) fired while waiting for the proxy; not a verdict")
+        elif not got_response and not new:
             res["violations"].append(["no-http-response:%s" % sig_prefix, wit])
         if not probe(cls):
             res["violations"].append(["listener-dead-after:%s" % sig_prefix, wit])
     # header values with bytes >= 0x80, repeated headers, long URLs
     for hv, cls in ((b"caf\xe9", "latin1"), (b"\xff", "ff"), ("ü€".encode(), "utf8"), (b"plain", "ascii")):
         for dest in ("other", "imds"):
-            c = w.open(dest, root, timeout=5)
+            c = w.open(dest, root, timeout=60)
             raw = b"GET /h?x=1 HTTP/1.1\r\nHost: x\r\nx-vf-id: hv-" + cls.encode() + b"\r\nX-Odd: " + hv + b"\r\nX-Odd: again\r\n\r\n"
-            got = False
-            try:
-                c.send(raw); c.read_response(); got = True
-            except Exception:
-                pass
+            got = talk(c, raw)
             c.close()
             bump("e2e:header-bytes:" + cls)
             if cls != "ascii":
                 res["nontrivial"].append("e2e-header:%s:%s" % (cls, dest))
             after("request-header-value-bytes", cls, {"header_value": hv.hex(), "dest": dest}, got)
     for n in (2000, 8000, 60000):
-        c = w.open("other", root, timeout=5)
-        got = False
-        try:
-            c.send(rawhttp.build_request("GET", "/" + "u" * n + "?q=" + "é".encode().hex(), [("x-vf-id", "long-%d" % n)])); c.read_response(); got = True
-        except Exception:
-            pass
+        c = w.open("other", root, timeout=60)
+        got = talk(c, rawhttp.build_request("GET", "/" + "u" * n + "?q=" + "é".encode().hex(), [("x-vf-id", "long-%d" % n)]))
         c.close()
         bump("e2e:long-url")
         after("long-url", str(n), {"url_len": n}, got)
@@ -201,12 +209,8 @@ def e2e(w, res, r, scratch):
                    "/a%c3", "/a%c3%28", "/a%ff%fe", "/a%00b", "/a%25252e%25252e/x%2", "/" + "%2e" * 300 + "%2", "/a;b=%2", "/a%2/b%"]
     for ti, target in enumerate(odd_targets):
         for attributed in (True, False):
-            c = w.open("other", root, timeout=5) if attributed else w.open(record=False, timeout=5)
-            got = False
-            try:
-                c.send(b"GET " + target.encode() + b" HTTP/1.1\r\nHost: x\r\nx-vf-id: odd-%d\r\n\r\n" % ti); c.read_response(); got = True
-            except Exception:
-                pass
+            c = w.open("other", root, timeout=60) if attributed else w.open(record=False, timeout=60)
+            got = talk(c, b"GET " + target.encode() + b" HTTP/1.1\r\nHost: x\r\nx-vf-id: odd-%d\r\n\r\n" % ti)
             c.close()
             bump("e2e:odd-percent-target")
             res["nontrivial"].append("e2e-odd-target:%d:%s" % (ti, attributed))
@@ -214,13 +218,9 @@ def e2e(w, res, r, scratch):
     # the proxy's own /provision endpoint with hostile headers
     for tick, cls in ((b"12\xff34", "tick-non-ascii"), ("ü".encode(), "tick-utf8"), (b"9" * 60, "tick-huge"), (b"-1", "tick-negative"), (b"", "tick-empty"), (b"1e9", "tick-float")):
         for md in (b"True", b"\xfftrue", None):
-            c = w.open(record=False, timeout=5)
+            c = w.open(record=False, timeout=60)
             raw = b"GET /provision HTTP/1.1\r\nHost: x\r\nx-ms-azure-time_tick: " + tick + b"\r\n" + (b"Metadata: " + md + b"\r\n" if md is not None else b"") + b"x-ms-azure-notify: \xfe\r\n\r\n"
-            got = False
-            try:
-                c.send(raw); c.read_response(); got = True
-            except Exception:
-                pass
+            got = talk(c, raw)
             c.close()
             bump("e2e:provision-query:" + cls)
             if b"\xff" in tick + (md or b"") or cls == "tick-utf8":
@@ -236,12 +236,12 @@ def e2e(w, res, r, scratch):
                 ident = w.identity("Ünï" if made % 2 else "alice", "tøøl" if made % 3 == 0 else "tool", [arg])
                 made += 1
                 for dest, expect in (("imds", 403), ("other", 200)):
-                    c = w.open(dest, ident, timeout=5)
-                    got = False
+                    c = w.open(dest, ident, timeout=60)
+                    got, st = False, None
                     try:
                         c.send(rawhttp.build_request("GET", "/x?y=1", [("x-vf-id", "cmd-%d-%s" % (made, dest))])); st = c.read_response().status; got = True
-                    except Exception:
-                        st = None
+                    except Exception as e:  # noqa
+                        got = "timeout" if common.is_timeout(e) else False
                     c.close()
                     bump("e2e:multibyte-cmdline:%s" % dest)
                     res["nontrivial"].append("e2e-cmdline:%d:%d:%d:%s" % (len(ch.encode()), delta, base, dest))
@@ -340,7 +340,7 @@ def impatient_clients(args, scratch):
             rr = common.rng("c13-imp", args["shard"], ti, rnd)
             for k in range(args["burst"]):
                 try:
-                    c = w.open(rr.choice(["imds", "other"]), root, timeout=5)
+                    c = w.open(rr.choice(["imds", "other"]), root, timeout=60)
                     c.send(rawhttp.build_request(rr.choice(["GET", "POST"]), "/imp/%d/%d?x=%d" % (ti, rnd, k), [("x-vf-id", "imp-%d-%d-%d" % (ti, rnd, k)), ("content-length", "0")]))
                     mode = (k + rnd) % 4
                     if mode == 1:
